@@ -42,6 +42,7 @@ where
         unsafe {
             let cloned_value = match *value {
                 Lazy_::Blackhole(..) => return Err(Error::Message("<<loop>>".into())),
+                Lazy_::Failed(ref msg) => Lazy_::Failed(msg.clone()),
                 Lazy_::Thunk(ref value) => Lazy_::Thunk(deep_cloner.deep_clone(value)?.unrooted()),
                 Lazy_::Value(ref value) => Lazy_::Value(deep_cloner.deep_clone(value)?.unrooted()),
             };
@@ -69,12 +70,14 @@ enum Lazy_ {
     ),
     Thunk(Value),
     Value(Value),
+    // The computation failed with this message, every `force` reports it again
+    Failed(String),
 }
 
 unsafe impl<T> Trace for Lazy<T> {
     impl_trace! { self, gc,
         match &mut *self.value.lock().unwrap() {
-            Lazy_::Blackhole(..) => (),
+            Lazy_::Blackhole(..) | Lazy_::Failed(..) => (),
             Lazy_::Thunk(value) => mark(value, gc),
             Lazy_::Value(value) => mark(value, gc),
         }
@@ -154,7 +157,22 @@ fn force(
                         value.vm_push(&mut vm.current_context()).unwrap();
                         RuntimeResult::Return(Pushed::default())
                     }
-                    Err(err) => RuntimeResult::Panic(format!("{}", err).into()),
+                    Err(err) => {
+                        let msg = format!("{}", err);
+                        // Leaving the blackhole in place would make every later `force` from
+                        // another thread wait for a value that never arrives
+                        let mut lazy_lock = lazy.value.lock().unwrap();
+                        let waiting = match *lazy_lock {
+                            Lazy_::Blackhole(_, ref mut x) => x.take(),
+                            _ => None,
+                        };
+                        *lazy_lock = Lazy_::Failed(msg.clone());
+                        drop(lazy_lock);
+                        if let Some((sender, _receiver)) = waiting {
+                            let _ = sender.send(());
+                        }
+                        RuntimeResult::Panic(msg.into())
+                    }
                 }
             }))
         }
@@ -176,25 +194,25 @@ fn force(
                 }
                 let ready = opt.as_ref().unwrap().1.clone();
                 let vm = vm.root_thread();
-                Either::Right(Either::Right(
-                    ready
-                        .map(move |_| {
-                            let lazy_lock = lazy.value.lock().unwrap();
-                            match *lazy_lock {
-                                Lazy_::Value(ref value) => {
-                                    vm.current_context().push(value);
-                                    Pushed::default()
-                                }
-                                _ => unreachable!(),
-                            }
-                        })
-                        .map(RuntimeResult::Return),
-                ))
+                Either::Right(Either::Right(ready.map(move |_| {
+                    let lazy_lock = lazy.value.lock().unwrap();
+                    match *lazy_lock {
+                        Lazy_::Value(ref value) => {
+                            vm.current_context().push(value);
+                            RuntimeResult::Return(Pushed::default())
+                        }
+                        Lazy_::Failed(ref msg) => RuntimeResult::Panic(msg.clone().into()),
+                        _ => unreachable!(),
+                    }
+                })))
             }
             Lazy_::Value(ref value) => {
                 vm.current_context().push(value);
                 Either::Left(future::ready(RuntimeResult::Return(Pushed::default())))
             }
+            Lazy_::Failed(ref msg) => Either::Left(future::ready(RuntimeResult::Panic(
+                msg.clone().into(),
+            ))),
             _ => unreachable!(),
         },
     }
